@@ -160,6 +160,10 @@ def constructed(rng):
         dd(0, s, x, t)
         dd(x, t, 0, s)
         dd(0, s, 0, t)
+    # 6a'. identical operands (x / x; the driver also runs `&x / &x` with both references to one object)
+    for s in range(19):
+        for c in (0, 1, -1, 5, P10[s], M, -M, rng.randrange(-M, M), G.small_coeff(rng, 60)):
+            out.append("%s * %s %s" % (rng.choice(("div", "cdiv")), G.fD(c, s), G.fD(c, s)))
     # 6b. operands at the widths of the primitive types, divisors +-1, +-2, 3, 10 (narrow-type fast paths)
     for c in G.type_boundary_coeffs():
         for s in (0, 1, 9, 17, 18):
